@@ -30,12 +30,9 @@ ALSO = {'C03': {'R03.1': 'what list prints is the decoded Path exactly as writte
 
 def suffix_guarded(b, node, entry_term):
     """The listing element is tested with endswith('.trashinfo')."""
-    for c, pol, n in guards(b, node.id):
-        c2, p2 = unwrap_not(c, pol)
-        if isinstance(c2, MCall) and c2.name == 'endswith' and p2 and c2.args and \
-                is_const(strip(c2.args[0]), SUFFIX):
-            return True
-    return False
+    return established(b, node.id, lambda c2, p2: isinstance(c2, MCall) and
+                       c2.name == 'endswith' and p2 and bool(c2.args) and
+                       is_const(strip(c2.args[0]), SUFFIX))
 
 
 def degenerate_name_test(c):
@@ -234,12 +231,35 @@ def check(ctx):
     for cmd in ('list', 'empty', 'rm'):
         bb = ctx.graph(cmd)
         fs_ = set()
+        listed = set()            # trash directories whose info/ is listed
+        for p_ in bb.probes():
+            if p_.data['prim'] != 'os.listdir' or not p_.data['args']:
+                continue
+            for parts in join_part_lists(p_.data['args'][0]):
+                if len(parts) >= 2 and is_const(strip(parts[-1]), 'info'):
+                    for d_ in parts[:-1]:
+                        listed |= alt_ids(d_)
+
+        def names_listed_dir(x):
+            comps = []
+            if isinstance(x, Obj):
+                comps = list(x.fields.values())
+                if '_tuple' in x.fields:
+                    for t_ in flat(x.fields['_tuple']):
+                        if isinstance(t_, TupleT):
+                            comps.extend(t_.items)
+            elif isinstance(x, TupleT):
+                comps = list(x.items)
+            return any(alt_ids(c_) & listed for c_ in comps)
         for y in bb.nodes('yield'):
             v = y.data.get('value')
-            for a in flat(v) if v is not None else []:
+            alts_ = flat(v) if v is not None else []
+            if len(alts_) != 1:
+                continue          # a loop that hands on events of an inner generator
+            for a in alts_:
+                # (event, <record of a trash directory: path and volume>)
                 if isinstance(a, TupleT) and len(a.items) == 2 and any(
-                        isinstance(x, Obj) and ('_tuple' in x.fields)
-                        for x in flat(a.items[1])):
+                        names_listed_dir(x) for x in flat(a.items[1])):
                     fs_.add(y.data.get('gen'))
         scanners[cmd] = fs_
     core = scanners['list'] & scanners['empty'] & scanners['rm']
